@@ -12,6 +12,7 @@ import Ajson.Proofs.DecodeStruct
 import Ajson.Proofs.Acyclic
 import Ajson.Proofs.Views
 import Ajson.Proofs.CloneSound
+import Ajson.Proofs.Steps
 
 namespace Ajson.Props.C06
 open Ajson Ajson.Heap
